@@ -143,6 +143,11 @@ func (g *Gen) genForeign() *FImg {
 			if pt == 2 {
 				havePrim = true
 				f.Arch = []byte(ac + "\x00")
+				if r.Chance(1, 6) {
+					// a writer that does not record the primary architecture in the global header
+					f.Arch = []byte("00\x00")
+					g.count("foreign:primary-partition-header-arch-unknown")
+				}
 			}
 		case 0x400A, 0x400B:
 			d.Extra = []byte(fmt.Sprintf("sha256:%x", r.Bytes(32)))
